@@ -830,7 +830,7 @@ def main():
             check_run(ck, big, dict(DEFAULT_CFG, **cfg), scratch, use_model)
         li = gen_long_interval(ck.rng, dt.datetime(2017, 3, 1))
         check_run(ck, li, gen_config(ck.rng, li, force={"broken": None, "skip": False, "open": None}, stress=False), scratch, use_model)
-        explore(ck, ck.budget(15, 80), 2 if ck.tier == "quick" else 5, scratch, use_model)
+        explore(ck, ck.budget(12, 80), 2 if ck.tier == "quick" else 5, scratch, use_model)
         if ck.broken() and not ck.violations:
             # failing-input search on the real code (oracle only) with the larger budget
             explore(ck, 60 if ck.tier == "quick" else 150, 4, scratch, use_model=False)
